@@ -173,11 +173,7 @@ struct MockTaskSet {
     g_inTask = saved;
     g_frameCalls = savedCalls;
     --self->running;
-#ifdef VF_NATIVE_REPLAY
     delete f;
-#endif
-    // solver build: the (trivially destructible) closure object is simply never reused; modelling
-    // its deallocation only adds lifetime bookkeeping to every later pointer access
   }
 
   // a free thread exists that could start one more stored closure right now
@@ -186,20 +182,22 @@ struct MockTaskSet {
     return running < budget;
   }
 
-  void runOnePending() {
-    uint32_t k = vf_range_u32(0, kMax - 1);
-    vf_assume(k < nslots && slots[k] != nullptr);
-    runSlot(this, k);
-  }
-
-  // scheduling point: zero or more queued closures are started (and run to completion) now
-  void runSome() {
-    // at most kMax - running closures can still be queued (running is a constant on every path)
-    for (uint32_t i = 0; i + running < kMax; ++i) {
-      if (!npending || !threadAvailable() || !vf_nondet_bool()) {
+  // One pass over the queue in index order: every queued closure is started now (and runs to
+  // completion) or skipped - a symbolic choice per closure unless `all`.  Slot indices are constants
+  // at every call site, which keeps the closure pointers precise for the solver.  Any execution
+  // order of the closures is reachable through the passes of scheduleBulk() + wait() (two there).
+  void pass(bool all) {
+    for (uint32_t j = 0; j < kMax; ++j) {
+      if (slots[j] == nullptr) {
+        continue;
+      }
+      if (!threadAvailable()) {
         break;
       }
-      runOnePending();
+      if (!all && !vf_nondet_bool()) {
+        continue;
+      }
+      runSlot(this, j);
     }
   }
 
@@ -211,7 +209,7 @@ struct MockTaskSet {
       }
       return;
     }
-    runSome();
+    pass(false);
   }
 
   template <typename Gen>
@@ -231,16 +229,13 @@ struct MockTaskSet {
       ++nslots;
       ++npending;
     }
-    runSome();
+    pass(false);
   }
 
   bool wait() {
-    for (uint32_t i = 0; i < kMax; ++i) {
-      if (!npending) {
-        break;
-      }
-      runOnePending();
-    }
+    pass(false);
+    pass(true);
+    vf_check(npending == 0, "harness: wait() ran every queued closure");
     return false;
   }
 };
